@@ -15,7 +15,8 @@ ASSUME = [
     "filesystem services are created both on a fresh directory (the address becomes known with the reply) and on a directory Tor has "
     "served before (hostname file present from the start: events before the reply are then attributable and count)",
     "FAILED events that report a failed descriptor fetch (a directory no upload was announced to, REASON=NOT_FOUND), for either "
-    "service, are interleaved; they decide nothing",
+    "service, are interleaved; they decide nothing; nor do Tor's other descriptor reports (CREATED - also a rebuild while uploads "
+    "are being followed -, REQUESTED, RECEIVED, IGNORE), which are interleaved for either service as well",
     "in two of five executions the caller passes a progress callback (its calls are recorded; the outcome must not depend on it)",
     "authenticated ephemeral services (which match uploads by a permanent id derived from an RSA key) are not replayed",
     "every fourth creation is started right after an earlier service's creation completed on the same connection, while the SETEVENTS "
@@ -53,7 +54,10 @@ def rand_script(rng):
             continue
         s, d = rng.choice(["me", "me", "other"]), rng.choice(dirs)
         st = up[(s, d)]
-        if st == "none" and rng.random() < 0.2:
+        if rng.random() < 0.12:
+            # Tor's other reports about a descriptor (built / rebuilt, a fetch started, answered, ignored): not uploads
+            script.append(dict(a="Notice", s=s, d=d, k=rng.choice(["CREATED", "CREATED", "REQUESTED", "RECEIVED", "IGNORE"])))
+        elif st == "none" and rng.random() < 0.2:
             script.append(dict(a="FetchFailed", s=s, d=d))      # a failed fetch of the descriptor: not an upload
         elif st == "none":
             up[(s, d)] = "started"
